@@ -157,6 +157,12 @@ func l2Answer(kind string) L2Answer {
 		return L2Answer{Status: 429, Body: `{"error":"rate limited"}`, Tag: "status-429"}
 	case "503":
 		return L2Answer{Status: 503, Body: `{"error":"unavailable"}`, Tag: "status-503"}
+	case "503html": // what http.TimeoutHandler or a load balancer in front of the authenticator sends
+		return L2Answer{Status: 503, Body: `<html><head><title>Timeout</title></head><body><h1>Timeout</h1></body></html>`, Tag: "status-503-html"}
+	case "429empty":
+		return L2Answer{Status: 429, Body: ``, Tag: "status-429-empty"}
+	case "503text":
+		return L2Answer{Status: 503, Body: `upstream connect error or disconnect/reset before headers`, Tag: "status-503-text"}
 	case "500":
 		return L2Answer{Status: 500, Body: `{"error":"boom"}`, Tag: "status-500"}
 	case "502":
